@@ -22,8 +22,8 @@ def respell(e, rng):
     """numerically equal re-spelling: ints <-> integral floats in values, bases and n"""
     c = wire.cls(e)
     def num(v):
-        if isinstance(v, int) and rng.random() < 0.6:
-            return float(v)
+        if isinstance(v, int) and abs(v) < 2 ** 1000 and float(v) == v and rng.random() < 0.6:
+            return float(v)          # (an int beyond 2**53 with low bits set has no equal float)
         if isinstance(v, float) and v.is_integer() and rng.random() < 0.6:
             return int(v)
         return v
@@ -52,6 +52,11 @@ def _other_base(b):
     if nb == 1 or nb == b or nb != nb or nb == float('inf'):
         nb = 2.5 if b != 2.5 else 3.5
     return nb
+
+
+BIG_NEIGHBOURS = [(2 ** 53, 2 ** 53 + 1), (2 ** 53 + 1, float(2 ** 53)), (2 ** 53 + 1, 2 ** 53 + 2), (10 ** 17 + 1, 10 ** 17),
+                  (-(10 ** 17) - 1, -1e17), (2 ** 63 - 1, 2 ** 63), (2 ** 63 - 1, 2.0 ** 63), (10 ** 23, 1e23), (3 ** 40, float(3 ** 40)),
+                  (2 ** 1030 + 1, 2 ** 1030)]
 
 
 def nodes(e, path=()):
@@ -128,6 +133,15 @@ def gen_cases(rng, tier: str) -> list[dict]:
     for origin, e in common.expr_stream(rng, tier, common.sizes(tier, 250, 4000), depth_q=4, depth_t=6, share=0.2, max_size=150):
         r1, r2 = respell(e, rng), respell(e, rng)
         kind, m = mutate(e, rng)
+        consts = [pth for pth, n in nodes(e) if wire.cls(n) == "Constant"]
+        if consts and rng.random() < 0.12:
+            # two different numbers that no double tells apart (and the double next to them), at the same site
+            B, B2 = rng.choice(BIG_NEIGHBOURS)
+            if rng.random() < 0.5:
+                B, B2 = B2, B
+            pth = rng.choice(consts)
+            e, m, kind = replace_at(e, pth, X.Constant(B)), replace_at(e, pth, X.Constant(B2)), "value-bigint"
+            r1, r2 = respell(e, rng), respell(e, rng)
         cases.append({"origin": origin.split(":")[0], "a": wire.expr(e), "b": wire.expr(r1), "c": wire.expr(r2),
                       "m": wire.expr(m), "mkind": kind})
     return cases
@@ -144,11 +158,13 @@ def check_cases(cases: list[dict], rep: Report, known: dict) -> None:
         if rep.stop():
             break
         a, r1, r2, m = (wire.build_raw(c[k]) for k in ("a", "b", "c", "m"))
-        ia = b.ask(f"F0 beq {c['a']} {c['b']}")
-        ib = b.ask(f"F0 beq {c['a']} {c['m']}")
-        ic = b.ask(f"F0 beq {c['b']} {c['c']}")
+        # equality is about the numbers as written: the exact instance decides (a double cannot tell 2**53 + 1 from
+        # 2**53); it has no non-finite numbers, those pairs go to the double instance
+        ia, ib, ic = ([b.ask(f"{inst} beq {c[u]} {c[v]}") for inst in ("Q", "F0")] for u, v in (("a", "b"), ("a", "m"), ("b", "c")))
         work.append((c, a, r1, r2, m, ia, ib, ic))
     b.run()
+    pick = lambda pair: pair[0] if b[pair[0]].startswith("ok") else pair[1]  # noqa: E731
+    work = [(c, a, r1, r2, m, pick(ia), pick(ib), pick(ic)) for c, a, r1, r2, m, ia, ib, ic in work]
     for c, a, r1, r2, m, ia, ib, ic in work:
         rep.case((c["a"], c["m"]), wire.size(a) >= 3)
         rep.count("origin", c["origin"])
@@ -271,8 +287,9 @@ def objects_model(work, rep: Report) -> None:
                     o2, w2 = safe_draw()
                     if type(o2) is type(o1) or (wire.cls(o1) in wire.HEAD and wire.cls(o2) in wire.HEAD):
                         break
-            asks.append((c, o1, o2, w1, w2, b.ask(f"F0 obeq {w1} {w2}")))
+            asks.append((c, o1, o2, w1, w2, (b.ask(f"Q obeq {w1} {w2}"), b.ask(f"F0 obeq {w1} {w2}"))))
     b.run()
+    asks = [(c, o1, o2, w1, w2, i[0] if b[i[0]].startswith("ok") else i[1]) for c, o1, o2, w1, w2, i in asks]
     import copy
     import pickle
     for c, o1, o2, w1, w2, i in asks[::3]:
